@@ -123,3 +123,16 @@ package multidb
 //@   loop 2 invariant [order] forall(i, 0, len(routingFmt), forall(j, i + 1, len(routingFmt), slt(gPatOf[routingFmt[i].Name], gPatOf[routingFmt[j].Name])))
 //@   loop 2 invariant [patterns] forall(i, 0, len(routingFmt), routingFmt[i].Name != nil && has(routingTable, gPatOf[routingFmt[i].Name]) && routingFmt[i].Type == routingTable[gPatOf[routingFmt[i].Name]].Type && routingFmt[i].Table == routingTable[gPatOf[routingFmt[i].Name]].Table && routingFmt[i].NoDrop == routingTable[gPatOf[routingFmt[i].Name]].NoDrop)
 //@   loop 2 invariant [exact] forall(r string, has(exactRoutingTable, r) ==> has(routingTable, r) && exactRoutingTable[r] == routingTable[r])
+//@
+//@ // OpenDB(req): on success the store is a closable table over the database opened for the route of req: the request is
+//@ // recorded with the route's table in that database (records still pairwise non-overlapping), the view is the whole
+//@ // database for an empty table name and otherwise the table view whose prefix is the bytes of the table name
+//@ // (isolation of different prefixes: C24), and NoDrop is the route's
+//@ func (*Producer).OpenDB
+//@   requires p != nil && forall(i, 0, len(p.routingFmt), p.routingFmt[i].Name != nil) && forall(d kvdb.Store, recsOK(d) && gRecN[d] < 4611686018427387904)
+//@   modifies nopen, gRecN[*], gRecs[*]
+//@   ensures  [type] result1 == nil ==> typeis(result0, "*closableTable") && unbox(result0, "*closableTable").underlying != nil && unbox(result0, "*closableTable").noDrop == rtNoDrop(p, req, "", "")
+//@   ensures  [recorded] result1 == nil ==> recsOK(unbox(result0, "*closableTable").underlying) && exists(j, 0, gRecN[unbox(result0, "*closableTable").underlying], gRecs[unbox(result0, "*closableTable").underlying][j].Req == req && gRecs[unbox(result0, "*closableTable").underlying][j].Table == rtTable(p, req, "", ""))
+//@   ensures  [whole] result1 == nil && len(rtTable(p, req, "", "")) == 0 ==> unbox(result0, "*closableTable").Store == unbox(result0, "*closableTable").underlying
+//@   ensures  [table] result1 == nil && len(rtTable(p, req, "", "")) != 0 ==> typeis(unbox(result0, "*closableTable").Store, "*table.Table") && unbox(unbox(result0, "*closableTable").Store, "*table.Table").underlying == unbox(result0, "*closableTable").underlying && len(unbox(unbox(result0, "*closableTable").Store, "*table.Table").prefix) == len(rtTable(p, req, "", ""))
+//@   ensures  [others] forall(d kvdb.Store, (result1 != nil ==> gRecN[d] == old(gRecN[d])) && (result1 == nil && d != unbox(result0, "*closableTable").underlying ==> gRecN[d] == old(gRecN[d]) && gRecs[d] == old(gRecs[d])))
